@@ -340,6 +340,10 @@ for n in range(0, RL + 1):
 evaluations += nre
 import shutil
 shutil.rmtree(tmp, ignore_errors=True)
+# ---- Lua side: a hostile page module inside the real sandbox
+from bounded import c06_lua
+n_lua, lua_note = c06_lua.run(fail, quiet_stdout)
+evaluations += n_lua
 emit({"evaluations": evaluations, "distinct_nontrivial": len(distinct),
       "rule": "distinct module names tried against lua_loader",
       "failures": list(failures.values()), "samples": samples,
@@ -349,4 +353,4 @@ emit({"evaluations": evaluations, "distinct_nontrivial": len(distinct),
                f"over {len(pool)} hostile values ({nerr} raised; object graph of each error walked through the filter; "
                f"not exercised: {skipped_helpers}); "
                f"re.sub contracts of lua_loader on {nre} strings (length <= {RL}); "
-               "Lua-side whitelists are NOT exercised (sandbox cannot start offline)"})
+               + lua_note})
